@@ -94,6 +94,9 @@ func NewQuery(sql string) (*Command, error) {
 }
 
 func QuoteString(str string) string {
+	// the parser this library uses reads a backslash inside a string literal as an escape
+	// character (MySQL rules), so it is doubled as well as the quote
+	str = strings.ReplaceAll(str, "\\", "\\\\")
 	return "'" + strings.ReplaceAll(str, "'", "''") + "'"
 }
 
